@@ -165,7 +165,28 @@ def judge(case, R, tin, tout, f):
                 break
 
 
+SHAPES = ["if (a) b = 1; else c = 2;", "if (a) { b = 1; c = 2; } else d = 3;", "if (a) if (b) c = 1; else d = 2;",
+                                                       "if (a) { if (b) c = 1; } else d = 2;", "for (a = 0; a < 3; a++) if (b) break;", "if (a) { b = 1; } else if (c) { d = 2; e = 3; } else { f = 4; }",
+                                                       "if (a) // note\n  b = 1;", "if (a > 0) // fast path\n{ g = 1; }", "for (a = 0; a < 3; a++) // loop\n{ b++; }", "while (a) // w\n{ a--; }",
+                                                       "if (a) // c1\n{ b = 1; }\nelse // c2\n{ c = 2; }", "do // d\n{ a++; } while (a < 3);", "if (a) /* c */\n{ b = 1; }",
+                                                       "if (a)\n{ b = 1; } // after", "if (a) {\n  b = 1; // inside\n}", "if (a)\n{ // first\n  b = 1;\n}", "else_less:\nif (a) { b = 1; }", "if (a) {\n#ifdef X\n b = 1;\n#endif\n}", "while (a) { /* only a comment */ }", "if (a) { b = 1; /* trailing */ }",
+                                                       "if (a &&\n    b) { while (c) d--; } else { e = 1; }", "if (a) { for (i = 0;\n     i < 3; i++) b++; } else { c = 2; }",
+                                                       "if (a ||\n    b) { c = 1; }", "if (a) { if (f(b,\n   c)) d = 1; }", "if (a) { switch (b) { case 1: c = 2; break; } } else { d = 3; }",
+                                                       "while (a &&\n       b) { c--; }", "for (a = 0;\n     a < 3;\n     a++) { b++; }", "if (a) { while (f(b,\n    c)) d--; } else if (e) { g(1,\n 2); } else { h = 1; }",
+                                                       "if (a) { int v = 1; }", "if (a) { MACRO(b) }", "#define RET_A return a // result\nif (b) { RET_A; }", "#define BUMP if (a) b++ /* bump */\nBUMP;", "return (a);", "return a + 1;", "return (a) + (b);"]
+
+
+# option pairs that only act together
+COMBOS = [["mod_full_brace_if_chain=1", "mod_full_brace_nl_block_rem_mlcond=true"], ["mod_full_brace_if_chain=2", "mod_full_brace_nl_block_rem_mlcond=true"],
+          ["mod_full_brace_if=remove", "mod_full_brace_nl_block_rem_mlcond=true"], ["mod_full_brace_for=remove", "mod_full_brace_while=remove", "mod_full_brace_nl_block_rem_mlcond=true"],
+          ["mod_full_brace_if=remove", "mod_full_brace_if_chain_only=true", "mod_full_brace_if_chain=1"], ["mod_full_brace_if=add", "mod_full_brace_nl=2"],
+          ["mod_paren_on_return=remove", "mod_full_paren_return_bool=true"], ["mod_full_paren_if_bool=true", "mod_full_paren_assign_bool=true"],
+          ["mod_case_brace=remove", "mod_move_case_break=true", "mod_move_case_return=true"], ["mod_remove_empty_return=true", "mod_full_brace_function=add"]]
+
+
 def mod_config(r):
+    if r.random() < 0.25:
+        return list(r.choice(COMBOS))
     opts = [o for o in lx.registry() if o["name"].startswith("mod_") and not o["name"].startswith(("mod_add_", "mod_sort_oc", "mod_pawn", "mod_sort_incl", "mod_sort_case"))]
     n = r.choice([1, 1, 2, 3, 6])
     out = []
@@ -200,12 +221,7 @@ def mod_program(r):
         elif ln.kind == "stmt" and k < 0.14:
             out.append(" " * (2 * ln.depth) + r.choice(["for (;;) { a++; break; }", "while (1) { b--; break; }", "do { x1++; } while (1);", "while (true) break;"]))
         elif ln.kind == "stmt" and k < 0.2:
-            out.append(" " * (2 * ln.depth) + r.choice(["if (a) b = 1; else c = 2;", "if (a) { b = 1; c = 2; } else d = 3;", "if (a) if (b) c = 1; else d = 2;",
-                                                       "if (a) { if (b) c = 1; } else d = 2;", "for (a = 0; a < 3; a++) if (b) break;", "if (a) { b = 1; } else if (c) { d = 2; e = 3; } else { f = 4; }",
-                                                       "if (a) // note\n  b = 1;", "if (a > 0) // fast path\n{ g = 1; }", "for (a = 0; a < 3; a++) // loop\n{ b++; }", "while (a) // w\n{ a--; }",
-                                                       "if (a) // c1\n{ b = 1; }\nelse // c2\n{ c = 2; }", "do // d\n{ a++; } while (a < 3);", "if (a) /* c */\n{ b = 1; }",
-                                                       "if (a)\n{ b = 1; } // after", "if (a) {\n  b = 1; // inside\n}", "if (a)\n{ // first\n  b = 1;\n}", "else_less:\nif (a) { b = 1; }", "if (a) {\n#ifdef X\n b = 1;\n#endif\n}", "while (a) { /* only a comment */ }", "if (a) { b = 1; /* trailing */ }",
-                                                       "if (a) { int v = 1; }", "if (a) { MACRO(b) }", "return (a);", "return a + 1;", "return (a) + (b);"]))
+            out.append(" " * (2 * ln.depth) + r.choice(SHAPES))
     out.append("void g(void) { a = 1; return; }")
     out.append("void h(void) { if (a) { return; } b = 2; return ; }")
     return "\n".join(out) + "\n"
@@ -219,6 +235,18 @@ def make_cases(r, tier):
         if i % 7 == 0:
             cfg = lx.ws_config(r, 10)                       # every mod_ option at its default
         cases.append(lx.LCase("gen:%d" % i, r.choice(["C", "CPP"]), "\n".join(cfg) + "\n", mod_program(r).encode("utf-8")))
+    # every shape in one function, under every option combination and (thorough: every, quick: a sample of) single mod_ option values
+    body = "\n".join("  " + sh.replace("\n", "\n  ") for sh in SHAPES)
+    allshapes = ("int a, b, c, d, e, g, h, i, x1;\nvoid shapes(void)\n{\n%s\n}\n" % body).encode()
+    singles = []
+    for o in lx.registry():
+        if o["name"].startswith("mod_") and not o["name"].startswith(("mod_add_", "mod_sort_oc", "mod_pawn", "mod_sort_incl", "mod_sort_case")):
+            vals = ["add", "remove", "force"] if o["type"] == "iarf_e" else ["true"] if o["type"] == "bool" else ["1", "2", "3"]
+            singles += [["%s=%s" % (o["name"], v)] for v in vals]
+    chosen = COMBOS + (singles if tier != "quick" else r.sample(singles, 12))
+    for k, combo in enumerate(chosen):
+        for lang in ("C", "CPP"):
+            cases.append(lx.LCase("shapes:%s" % ",".join(combo), lang, "\n".join(combo) + "\n", allshapes))
     for i, c in enumerate(lx.corpus_cases(r, nc)):
         c.cfg_text = "\n".join(mod_config(r)) + "\n"
         cases.append(c)
